@@ -1,2 +1,86 @@
-(* placeholder: theorems being added *)
-From DC Require Import Model.Base Model.Solver.
+(* C01 - resolve_constraints returns only with every constraint satisfied, or raises
+   NoSolutionError.  Stated over the abstract solver model (Model/Solver.v): [spec] is ANY type of
+   specifications with ARBITRARY evaluate / localized / initialized_on_problem functions and
+   resolution heuristics -- in particular ones whose localization or heuristic is wrong. *)
+From Coq Require Import ZArith QArith Bool List Lia Sorting.Sorted.
+From DC Require Import Model.Base Model.Loc Model.MSpace Model.Solver
+                       Proofs.MSpaceDefs Proofs.MSpaceA Proofs.MSpaceB Proofs.MSpaceC
+                       Proofs.SolverA Proofs.SolverB Proofs.SolverC Proofs.SolverD.
+Import ListNotations.
+Open Scope Z_scope.
+
+Section AnySpecifications.
+  Variable spec : Type.
+  Variable spec_eqb : spec -> spec -> bool.
+  Variable ev : spec -> dna -> Q * option (list loc).
+  Variable localize : spec -> loc -> bool -> dna -> lres spec.
+  Variable accepts_rh : spec -> bool.
+  Variable reinit : bool -> spec -> dna -> spec.
+  Variable enforced : spec -> bool.
+  Variable priority : spec -> Z.
+  Variable best : spec -> option Q.
+  Variable boost : spec -> Q.
+  Variable passive : spec -> bool.
+  Variable heuristic : spec -> option (settings -> lproblem spec -> state spec -> outcome * state spec).
+  Variable opt_heuristic : spec -> option (settings -> lproblem spec -> state spec -> outcome * state spec).
+
+  Notation resolve_constraints :=
+    (resolve_constraints spec spec_eqb ev localize accepts_rh reinit enforced priority heuristic).
+
+  (* a normal return means every constraint passes when fully re-evaluated (no autopass).  The one
+     return that skips the final check (no constraint needs solving: all are flagged
+     enforced_by_nucleotide_restrictions) is covered by the mutation-space guarantee C04, which
+     enters as the second hypothesis. *)
+  Theorem C01_return_means_every_constraint_passes : forall cfg space cs st st',
+    resolve_constraints cfg space cs true st = (ODone, st') ->
+    (filter (fun c => negb (enforced c)) cs = [] -> forall c, In c cs -> passes_on spec ev c (cur _ st)) ->
+    forall c, In c cs -> passes_on spec ev c (cur _ st').
+  Proof.
+    exact (resolve_constraints_done_all_pass spec spec_eqb ev localize accepts_rh reinit enforced priority
+             best boost passive heuristic opt_heuristic).
+  Qed.
+
+  Theorem C01_unenforced_constraints_always_pass_on_return : forall cfg space cs st st',
+    resolve_constraints cfg space cs true st = (ODone, st') ->
+    forall c, In c cs -> enforced c = false -> passes_on spec ev c (cur _ st').
+  Proof.
+    exact (resolve_constraints_done_unenforced_pass spec spec_eqb ev localize accepts_rh reinit enforced priority
+             best boost passive heuristic opt_heuristic).
+  Qed.
+
+  Variable space : mspace.
+  Variable n : Z.
+  Hypothesis space_wf : wf_space space.
+  Hypothesis space_fits : forall c, In c (choices_list space) -> cend c <= n.
+
+  (* well-formed user code: localized() does not raise; heuristics end in NoSolutionError or with a
+     sequence of the local mutation space (what the library's own searches produce) *)
+  Hypothesis heuristics_sound : forall c h, heuristic c = Some h -> heuristic_sound spec space n h.
+  Hypothesis localize_total : forall c w rh s, localize c w rh s <> LError.
+
+  (* ... then no exception other than NoSolutionError can escape, for every configuration and every
+     stream of random draws (OOutOfStream is the harness artefact "recorded stream too short") *)
+  Theorem C01_only_NoSolutionError_can_escape : forall cfg cs fc st o st',
+    state_good spec space n st -> resolve_constraints cfg space cs fc st = (o, st') ->
+    o = ODone \/ o = ONoSolution \/ o = OOutOfStream.
+  Proof.
+    intros cfg cs fc st o st' Hg Hr.
+    eapply resolve_constraints_no_other_exception with (heuristic := heuristic); eassumption.
+  Qed.
+End AnySpecifications.
+Print Assumptions C01_return_means_every_constraint_passes.
+Print Assumptions C01_unenforced_constraints_always_pass_on_return.
+Print Assumptions C01_only_NoSolutionError_can_escape.
+
+(* Non-vacuity: a tiny instance (spec = nat, one constraint forbidding the sequence "A") where the
+   solver has to work and returns with the constraint passing. *)
+Definition ex_ev (c : nat) (s : dna) : Q * option (list loc) :=
+  if seq_eqb s [nA] then ((-1 # 1)%Q, Some [mkLoc 0 1 0]) else (0%Q, Some []).
+Definition ex_space := mkSpace [Some (mkChoice 0 1 [[nA]; [nC]] false)].
+Example C01_ex :
+  let r := resolve_constraints nat Nat.eqb ex_ev (fun c _ _ _ => LSome c) (fun _ => true) (fun _ c _ => c)
+             (fun _ => false) (fun _ => 0) (fun _ => None)
+             (mkSettings 10000 10 2 [0; 5] None) ex_space [0%nat] true
+             (mkState nat [nA] (mkR [] []) []) in
+  fst r = ODone /\ cur _ (snd r) = [nC].
+Proof. vm_compute. split; reflexivity. Qed.
